@@ -343,6 +343,8 @@ func (in *Interp) resetPath(it WorkItem) {
 	in.termBudget = 0
 	in.files = map[*Value]*[]Value{}
 	in.timers = nil
+	in.vnow = 0
+	in.sigRegs = nil
 	in.env = map[string]string{}
 	in.depth = 0
 	in.curFrame = nil
